@@ -121,6 +121,22 @@ def generate(rng, tier):
             if rng.random() < 0.25:
                 init.append(list(c))
         uni = units + extra
+        if rng.random() < 0.3:
+            # an explicit pool without the unit columns (multi-piece columns only, every item still producible):
+            # fractional master LPs and rounding gaps are common here
+            pool = [c for c in extra if sum(c) >= 2]
+            for i in range(m):
+                if not any(c[i] for c in pool):
+                    col = [0] * m
+                    col[i] = rng.choice([2, 2, 3])
+                    if m > 1 and rng.random() < 0.5:
+                        col[rng.randrange(m)] += 1
+                    pool.append(col)
+            uni = pool
+            init = [list(c) for c in pool if rng.random() < 0.7]
+            for i in range(m):
+                if not any(c[i] for c in init):
+                    init.append(list(next(c for c in pool if c[i])))
         if rng.random() < 0.12 and m >= 2:
             # an explicit column pool that cannot produce some demanded item at all: no plan exists
             z = rng.randrange(m)
@@ -410,7 +426,7 @@ def shrink(case):
             for v in shr.shrink_int(case["sizes"][i], 1):
                 yield shr.with_path(case, ("sizes", i), v)
     else:
-        units = m
+        units = m if all(case["universe"][i] == [1 if k == i else 0 for k in range(m)] for i in range(min(m, len(case["universe"])))) and len(case["universe"]) >= m else 0
         for j in range(len(case["universe"]) - 1, units - 1, -1):
             c = copy.deepcopy(case)
             col = c["universe"].pop(j)
